@@ -17,7 +17,7 @@ TraceSpec == TraceInit /\ [][TraceNext]_<<l, codec, branch>>
 
 Gen(r) == {k \in DOMAIN r.units : r.units[k].generated}
 U(r, k) == [m |-> r.m, uniform |-> r.units[k].uniform, pkts |-> r.units[k].pkts,
-            psig |-> r.units[k].psig, dsig |-> r.units[k].dsig]
+            psig |-> r.units[k].psig, dsig |-> r.units[k].dsig, derrs |-> r.units[k].derrs]
 \* the run's offset: that of the first generated packet
 FirstGen(r) == CHOOSE k \in Gen(r) : \A j \in Gen(r) : k <= j
 RunOff(r) == r.units[FirstGen(r)].pkts[1].tsoff
